@@ -150,3 +150,21 @@ fn error_multiple_documents(hint: &'static str) -> (r: Error)
 // the snippet-attaching wrappers used by the entry points of src/lib.rs (local closures / helper); opaque: they only decorate the error
 #[verifier::external_body] fn attach_snippet(e: Error) -> Error { unimplemented!() }
 #[verifier::external_body] fn maybe_with_snippet(e: Error, input: &str, with_snippet: bool, crop_radius: usize) -> Error { unimplemented!() }
+
+// ---- the document iterator of read_with_options (src/lib.rs ReadIter): the target type is opaque ----
+#[verifier::external_body] pub struct DocVal { _p: () }       // stands for `T`
+/// `with_document_scope(|| T::deserialize(YamlDeserializer::new(&mut src, cfg)))`: drives the event source through the
+/// Events interface only; what it consumes and returns is unknown here
+#[verifier::external_body]
+fn deserialize_document<'a>(src: &mut LiveEvents<'a>, cfg: Cfg) -> (r: Result<DocVal, Error>)
+    ensures spans_ok(old(src).parser.pending()) ==> spans_ok(final(src).parser.pending()),
+        (old(src).budget is Some ==> old(src).budget.unwrap().per_doc()) ==> (final(src).budget is Some ==> final(src).budget.unwrap().per_doc()),
+{ unimplemented!() }
+
+/// `src.skip_to_next_document()` as called by the iterator.  The function itself is verified in this unit under two
+/// preconditions that are facts about the environment (well-formed parser spans) and about how `read_with_options`
+/// builds the source (per-document enforcement); they are NOT re-checked at this call site.
+#[verifier::external_body]
+fn iter_skip_to_next_document<'a>(src: &mut LiveEvents<'a>) -> (r: bool)
+    ensures final(src).look is None,
+{ unimplemented!() }
